@@ -110,7 +110,9 @@ void rm_rf(const std::string &d) {
   closedir(dir); rmdir(d.c_str());
 }
 
-struct SinkSpec { int kind = 0; int deflevel = 8; int modlevel[4] = {-1, -1, -1, -1}; int buf = 3, mn = 2, mx = 4, intv = 1, fmax = 4; };
+struct SinkSpec { int kind = 0; int deflevel = 8; int modlevel[4] = {-1, -1, -1, -1}; int buf = 3, mn = 2, mx = 4, intv = 1, fmax = 4;
+  std::vector<std::pair<int, int>> level_calls;   // (module, level) in call order; level -1 = unsetLevel(module); modlevel[] is the resulting model
+  int redefinitions = 0; };
 
 std::string run(const Scenario &s, CaseInfo &info) {
   // ---- decode
@@ -126,7 +128,9 @@ std::string run(const Scenario &s, CaseInfo &info) {
           bool has_stdout = false; for (auto &x : specs) if (x.kind >= 3) has_stdout = true;
           if (sp.kind >= 3 && has_stdout) sp.kind = 0;      // at most one sink may own fd 1
           specs.push_back(sp); } break;
-      case MODLVL: if (!specs.empty()) specs[op.in(0, 0, (int64_t)specs.size() - 1)].modlevel[op.in(1, 0, 3)] = (int)op.in(2, 0, 7); break;
+      case MODLVL: if (!specs.empty()) {   // every op is a real setLevel()/unsetLevel() call, in order: a module may be re-configured several times
+          SinkSpec &sp = specs[op.in(0, 0, (int64_t)specs.size() - 1)]; int m = (int)op.in(1, 0, 3); int lv = (int)op.in(2, -1, 7);
+          if (sp.level_calls.size() < 12) { if (sp.modlevel[m] >= 0) sp.redefinitions++; sp.level_calls.push_back({m, lv}); sp.modlevel[m] = lv; } } break;
       case LOG: { int t = (int)op.in(0, 0, kMaxThreads - 1); Call c; c.t = t; c.seq = 0; c.level = (int)op.in(1, 0, 7); c.module = (int)op.in(2, 0, 3);
         size_t L; int64_t k = op.in(4, 0, 3000);
         switch (op.in(3, 0, 9)) { case 0: L = 0; break; case 1: L = 1; break; case 2: L = maxlen ? maxlen - 1 : 0; break; case 3: L = maxlen; break; case 4: L = maxlen + 1; break;
@@ -173,7 +177,7 @@ std::string run(const Scenario &s, CaseInfo &info) {
       saved_stdout = dup(1); dup2(fd, 1); close(fd);
     }
     sk->setLevel(sp.deflevel);
-    for (int m = 0; m < 4; ++m) if (sp.modlevel[m] >= 0) sk->setLevel(kModules[m], sp.modlevel[m]);
+    for (auto &lc : sp.level_calls) { if (lc.second >= 0) sk->setLevel(kModules[lc.first], lc.second); else sk->unsetLevel(kModules[lc.first]); }
     sk->enable();
     sinks.emplace_back(sk);
   }
@@ -272,6 +276,7 @@ std::string run(const Scenario &s, CaseInfo &info) {
   info.cls_if(any_trunc, "truncated_record");
   info.cls_if(any_roll, "file_rollover");
   info.cls_if(saved_stdout >= 0, "in_tree_stdout_sink");
+  { bool redef = false; for (auto &sp : specs) if (sp.redefinitions) redef = true; info.cls_if(redef, "module_level_reconfigured"); }
   info.nontrivial = (nthreads >= 2 && has_async && cross_boundary) || any_trunc || any_roll;
   return "";
 }
@@ -291,7 +296,7 @@ SubDef def = [] {
     auto opg = rc::gen::weightedOneOf<Op>({
       {12, mkop(LOG, {th, range(0, 7), range(0, 3), range(0, 9), range(0, 3000), range(0, 1)})},
       {2, mkop(YIELD, {th, rc::gen::weightedOneOf<int64_t>({{3, range(0, 49)}, {1, range(50, 500)}})})},
-      {1, mkop(MODLVL, {range(0, 2), range(0, 3), range(0, 7)})},
+      {2, mkop(MODLVL, {range(0, 2), range(0, 3), range(-1, 7)})},
     });
     return rc::gen::apply([](std::vector<Op> h, std::vector<Op> p, std::vector<Op> b) {
       Scenario s; s.ops = std::move(h); for (auto &o : p) s.ops.push_back(o); for (auto &o : b) s.ops.push_back(o); return s; },
